@@ -283,7 +283,7 @@ impl<T: Eq + Hash> FrequentItemsSketch<T> {
     where
         T: Clone,
     {
-        if other.is_empty() {
+        if other.stream_weight == 0 {
             return;
         }
         let merged_total = self.stream_weight + other.stream_weight;
